@@ -15,7 +15,7 @@ Theorem c33_perm_bijective : forall m off skip,
 Proof. exact perm_bijective. Qed.
 Print Assumptions c33_perm_bijective.
 
-From Verif.C33 Require Import Fill Order Indep ByteOrder.
+From Verif.C33 Require Import Fill Order Indep ByteOrder MeetsSpec Wrap.
 
 (* For every prime table size, all hash functions, byte orders and lists of AddBackend calls: Generate neither
    runs off a preference list (no index panic) nor out of the modelled fuel; with no backend it returns nil,
@@ -58,3 +58,46 @@ Example c33_example :
   prime 7 /\ maglev BOLittle LE fnv32 fnv32 7 witness_names
              = TLut (map (fun i => nth_error witness_names i) [2; 1; 0; 0; 2; 0; 1]%nat).
 Proof. split; [apply (is_prime_correct 7); vm_compute; reflexivity | vm_compute; reflexivity]. Qed.
+
+(* The specification's table oracle accepts every table the model produces: for every prime size, all hash functions
+   whose sums have at least four bytes (shorter sums make hashFromString fail and AddBackend ignore the backend),
+   every byte order / CPU, every reference list `canon` and every list of AddBackend calls naming the same set:
+   exactly m entries, every entry one of the distinct backends, every distinct backend between floor(m/D) and
+   ceil(m/D) entries. *)
+Theorem c33_model_meets_table : forall h1 h2,
+  (forall bs, (4 <= length (h1 bs))%nat) -> (forall bs, (4 <= length (h2 bs))%nat) ->
+  forall bo cpu m canon names,
+    prime (Z.of_N m) -> (forall x, In x names <-> In x canon) ->
+    ok_table m canon (model_obs_h h1 h2 bo cpu m canon names) = true.
+Proof. exact model_meets_table. Qed.
+Print Assumptions c33_model_meets_table.
+
+(* The whole case-level oracle (complete, balanced, equal for all insertion orders, equal on both CPU byte orders)
+   accepts every run of the model with a fixed byte order in the source, for every table size, name list and
+   insertion orders covering the same names; both halves of check_case are true. *)
+Theorem c33_model_meets_spec : forall env c,
+  c_bo c <> BONative ->
+  (forall ord, In ord (c_orders c) -> forall x, In x (apply_order (c_names c) ord) <-> In x (c_names c)) ->
+  c_obs c = model_tables c ->
+  (forall o, In o (c_obs_be c) -> o = model_other_cpu c) ->
+  check_case env (CLut c) = (true, true).
+Proof. exact model_meets_spec_case. Qed.
+Print Assumptions c33_model_meets_spec.
+
+(* Go's integer arithmetic: with a 64-bit two's-complement int and Go's truncated %, int(uint32 hash) % m,
+   skip % (m-1) + 1 and (offset + j*skip) % m are exactly the model's N expressions for every table size
+   2 <= m < 2^31 (general bounds: 2^32 <= 2^(bits-1) and m*m <= 2^(bits-1), lemmas go_offset_and_skip_exact and
+   go_perm_at_exact), so every theorem above holds of the wrapped arithmetic for every size Felix configures
+   (< 2^16 by c33_sizes_prime). *)
+Theorem c33_go_int64_exact : forall m off skip j r1 r2 : N,
+  2 <= m < 2 ^ 31 -> off < m -> skip < m -> j < m -> r1 < 2 ^ 32 -> r2 < 2 ^ 32 ->
+  go_perm_at 64 (Z.of_N m) (Z.of_N off) (Z.of_N skip) (Z.of_N j) = Z.of_N (perm_at m off skip j) /\
+  go_offset_and_skip 64 (Z.of_N r1) (Z.of_N r2) (Z.of_N m) = (Z.of_N (r1 mod m), Z.of_N (r2 mod (m - 1) + 1)).
+Proof. exact go64_exact. Qed.
+Print Assumptions c33_go_int64_exact.
+
+(* ... and the bound is needed: with a 32-bit int a hash with the top bit set becomes a negative offset. *)
+Theorem c33_go_int32_refuted :
+  exists r1 r2 m, r1 < 2 ^ 32 /\ (fst (go_offset_and_skip 32 (Z.of_N r1) (Z.of_N r2) (Z.of_N m)) < 0)%Z.
+Proof. exact go32_refuted. Qed.
+Print Assumptions c33_go_int32_refuted.
